@@ -93,7 +93,7 @@ func (c02) Build(tier string, seed uint64) []any {
 	if th {
 		per = 40
 	}
-	classes := []string{"noise", "altext", "twolevel", "ramp", "checker", "edges", "lowent", "impulses", "runs", "const", "smooth", "vstripes"}
+	classes := []string{"noise", "altext", "bands", "twolevel", "ramp", "checker", "edges", "lowent", "impulses", "runs", "const", "smooth", "vstripes"}
 	sizes := []int{1, 2, 3, 4, 5, 7, 8, 9, 15, 16, 17, 31, 32, 33, 63, 64, 65}
 	big := []int{255, 256, 257, 511, 512}
 	i := 0
@@ -118,10 +118,22 @@ func (c02) Build(tier string, seed uint64) []any {
 						cl = "noise"
 					} else if k == 1 {
 						cl = "altext"
+					} else if k == 2 {
+						cl = "bands"
 					}
 					cs = append(cs, &imgCase{Gen: "cell", W: w, H: h, C: c, P: p, Sel: sel, Class: cl, Aux: 1 + r.Intn(3), CSeed: r.U64()})
 				}
 			}
+		}
+	}
+	// (fibcat) deepest Huffman trees: Fibonacci-distributed categories on >= 6765 samples
+	for _, p := range []int{8, 12, 16} {
+		for sel := 0; sel <= 8; sel++ {
+			if !th && sel != 1 && sel != selSV1 && sel != int(seed%8) {
+				continue
+			}
+			r := gen.Sub(seed, "C02", "fibcat", p*16+sel)
+			cs = append(cs, &imgCase{Gen: "fibcat", W: 100 + r.Intn(30), H: 70 + r.Intn(20), C: 1, P: p, Sel: sel, Class: "fibcat", CSeed: r.U64()})
 		}
 	}
 	// (long)
